@@ -259,8 +259,16 @@ def run(ctx):
         if rng.random() < 0.3:
             try:
                 qi = int(rng.integers(n))
-                gate, desc = random_1q(lw, rng)
-                base.add(gate, offs[qi])
+                pp = None
+                if rng.random() < 0.4:
+                    # the edit is a phase shifter driven by a Parameter (before a mixing gate, so that it matters)
+                    pp = lw.Parameter(float(rng.uniform(0.4, 2.6)))
+                    base.ps(offs[qi] + int(rng.integers(2)), pp)
+                    base.add(lw.qubit.H(), offs[qi])
+                    desc = ["ps(Parameter) + H"]
+                else:
+                    gate, desc = random_1q(lw, rng)
+                    base.add(gate, offs[qi])
                 ctx.bucket("tomography_object_reused_after_edit")
                 m2 = tomoref.dual_rail_matrix(base, n)
                 psi2 = m2[:, 0]
@@ -280,6 +288,22 @@ def run(ctx):
                         ctx.violation(f"after editing the base circuit in place, process() on the same object gives a rho "
                                       f"that differs from the new |psi><psi| by {d2:.3g}", case={**case, "edit": desc + [qi]},
                                       mechanism="rho_value_after_in_place_edit", monitor="StateTomography.process post-condition")
+                    if pp is not None and data_kind != "integer_counts":
+                        # ... and the same object once more after only the Parameter's value changed
+                        pp.set(float(pp.get() + rng.uniform(0.5, 2.0)))
+                        ctx.bucket("tomography_object_reused_after_parameter_change")
+                        m3 = tomoref.dual_rail_matrix(base, n)
+                        psi3 = m3[:, 0] / np.linalg.norm(m3[:, 0])
+                        m_base = m3
+                        seen["settings"].clear()
+                        seen["data"].clear()
+                        rho3 = st.process()
+                        d3 = float(np.max(np.abs(rho3 - np.outer(psi3, psi3.conj()))))
+                        if d3 > 1e-8:
+                            ctx.violation(f"after a Parameter of the base circuit changed, process() on the same object gives a "
+                                          f"rho that differs from the new |psi><psi| by {d3:.3g}", case={**case, "edit": desc + [qi]},
+                                          mechanism="rho_value_after_parameter_change",
+                                          monitor="StateTomography.process post-condition")
             except Exception as e:  # noqa: BLE001
                 ctx.violation(f"second process() raised {type(e).__name__}: {e}", case=case,
                               mechanism="state_tomography_raised_on_reuse:" + type(e).__name__, monitor="driver")
